@@ -59,13 +59,33 @@ CHECKS = {
                       'process/lock snapshot) or wrong exit status is a violation; their token traces are validated by TLC.',
                 note='trusted: TLC, the reading of run()/block_on in RedoJobs (bound by the trace validation of the token '
                      'layer; the control-flow layer is bound only through exit status / termination of the real runs)'),
+    'C06': dict(engine='RedoSys', design='DESIGN.md section 4 C06',
+                technique='TLA+ model checking (TLC) of ScriptMutex/HoldThroughRecord/ScriptUnderLock on RedoSys at -j2/-j3 + trace '
+                          'validation: lock, script and commit events of several concurrent invocations checked by TLC against TraceLocks',
+                level='TLC checks on every interleaving of parallel process trees that two scripts of one target never coexist and '
+                      'that the starter holds the lock from the decision until the result is committed. Then 2-6 top-level commands '
+                      'are started together on random DAGs; every lock grant/release, decision, script begin/end, result record and '
+                      'commit of every process is replayed by TLC through TraceLocks, which rejects a decision outside the lock, an '
+                      'overlap of two scripts of one target, and a lock release or process exit before the result is committed.',
+                note='trusted: TLC, hook placement rule and script markers (an overlap in the trace is an overlap in reality), fcntl '
+                     'semantics; SIGKILL of a redo process is C10\'s subject'),
+    'C16': dict(engine='RedoDb', design='DESIGN.md section 4 C16',
+                technique='TLA+ model checking (TLC) of RedoDb (SQLite WAL rules + transaction scripts of the commands) + trace '
+                          'validation: transaction events of concurrent real commands replayed by TLC against TraceDb, final database '
+                          'compared with the committed state',
+                level='TLC checks NoSpuriousFailure, NoLostState, RunIdsDistinct and NotStuck on every interleaving of the database '
+                      'steps of 2-4 concurrent builds and queries, with and without an existing database (the pinned start-up is kept '
+                      'as a mode and must produce its counterexamples). 3-10 real commands are then started together, half of the time '
+                      'in a project without .redo: any database/lock error or unexplained non-zero exit is a violation, every '
+                      'transaction event is replayed by TLC (one writer at a time, writes only under the write lock, run ids '
+                      'distinct) and the final database must contain exactly the committed rows and edges.',
+                note='trusted: TLC, the SQLite rules stated in RedoDb (an assumption exercised only on the paths redo uses), hook '
+                     'placement'),
 }
 
 PENDING = {
-    'C06': 'check under construction (multi-invocation lock model + trace validation); not claimed yet',
     'C13': 'check under construction (RedoPaths transcription); not claimed yet',
     'C15': 'check under construction (RedoPaths transcription, aliasing); not claimed yet',
-    'C16': 'check under construction (RedoDb); not claimed yet',
     'C18': 'check under construction (RedoLog/RedoMeta); not claimed yet',
 }
 
@@ -88,6 +108,10 @@ def main():
              'serves_properties': sorted(k for k, c in CHECKS.items() if c.get('engine') == 'RedoJobs'),
              'kind_free_text': 'TLA+ specification of the jobserver token protocol and the scheduler loop at poll-cycle '
                                'granularity; TLC; TraceJobs.tla validates recorded token events of the real binaries'},
+            {'name': 'RedoDb', 'path': 'spec/RedoDb.tla',
+             'serves_properties': sorted(k for k, c in CHECKS.items() if c.get('engine') == 'RedoDb'),
+             'kind_free_text': 'TLA+ specification of the SQLite usage of the commands (deferred/immediate transactions, '
+                               'start-up, creation race); TLC; TraceDb.tla validates recorded transaction events'},
             {'name': 'RedoSys', 'path': 'spec/RedoSys.tla',
              'serves_properties': sorted(k for k, c in CHECKS.items() if c.get('engine', 'RedoSys') == 'RedoSys'),
              'kind_free_text': 'TLA+ specification of the whole build system (fs, db, locks, process tree); TLC; '
